@@ -14,7 +14,9 @@ def J(engine, quick, thorough, package="primsim", **kw):
 
 ARC = J("arc", 20000, 1500000)
 
-ALL_JOBS = [ARC]
+VEC = J("vec", 20000, 1500000)
+
+ALL_JOBS = [ARC, VEC]
 
 PROPS = {
     "C10": {
@@ -22,6 +24,12 @@ PROPS = {
         "real": ["cglue::arc (CArc, CArcSome, c_clone, c_drop, Opaquable)", "std::sync::Arc"],
         "stub": ["payload type with logged destructor", "foreign module's clone_fn/drop_fn in foreign_module runs", "C party transcribed from bindings.h"],
         "assumptions": COMMON_ASSUMPTIONS + ["Weak::strong_count is a faithful observer of the allocation's count"],
+    },
+    "C11": {
+        "jobs": [VEC],
+        "real": ["cglue::vec (CVec, TempVec, cglue_reserve_vec, cglue_drop_vec)", "std Vec"],
+        "stub": ["element types with logged destructors", "foreign module's reserve_fn/drop_fn + arena in foreign_policy runs", "C party transcribed from bindings.h"],
+        "assumptions": COMMON_ASSUMPTIONS + ["std::vec::Vec is the reference model"],
     },
 }
 
